@@ -15,7 +15,7 @@ THEOREMS = ["Mistune.blockLoop_total", "Mistune.inlineLoop_total", "Mistune.bloc
             "Mistune.iterRender_length", "Mistune.iterRender_shape"]
 
 WORD = re.compile(r"[A-Za-z]+")
-PLUGIN_SETS = [[], ["table"], ["def_list"], ["strikethrough", "mark", "insert", "superscript", "subscript"], ["speedup"], ["spoiler"],
+PLUGIN_SETS = [[], ["task_lists"], ["task_lists", "table", "def_list"], ["table"], ["def_list"], ["strikethrough", "mark", "insert", "superscript", "subscript"], ["speedup"], ["spoiler"],
                ["table", "def_list", "strikethrough", "mark", "insert", "superscript", "subscript", "spoiler", "speedup"], ["url"], ["math", "ruby"]]
 
 TOKS = [t for t in gen.INLINE_TOKS if "&" not in t and "%" not in t and "[x]" not in t and all(ord(c) < 128 for c in t) and "[^" not in t and "*[" not in t]
@@ -79,6 +79,15 @@ def refdef_block(rng):
     return out
 
 
+def bracket_items(rng):
+    """list items that begin with a one-character bracket which is NOT a task marker (kept as text by the task_lists plugin)"""
+    w = lambda: rng.choice(gen.WORDS)
+    out = []
+    for _ in range(rng.randint(1, 3)):
+        out.append("%s [%s] %s %s" % (rng.choice(["-", "*", "1.", "+"]), rng.choice(["1", "a", "-", "/", "?", "y", "0"]), w(), w()))
+    return out + [""]
+
+
 def nested_inline(rng):
     """links, images and code nested in each other's text (destinations, titles and labels of the inner ones are document words too)"""
     w = lambda: rng.choice(gen.WORDS)
@@ -101,6 +110,8 @@ def doc(rng):
             lines += deflist_block(rng) + [""]; continue
         if r0 < 0.17:
             lines += nested_inline(rng); continue
+        if r0 < 0.20:
+            lines += bracket_items(rng); continue
         if rng.random() < 0.15:
             lines.append(""); continue
         parts = [rng.choice(STARTS)]
@@ -210,7 +221,7 @@ def unique_word_part(ctx, n):
         r = ctx.rng.random()
         if r < 0.4:
             # a note with continuation lines of varying indentation (1-3 blanks) and further paragraphs
-            lines = ["text[^n] %s" % w(), "", "[^n]: %s" % w()]
+            lines = [ctx.rng.choice(["text[^n] %s", "Read [the manual[^n]](/handbook) %s", "*em[^n]* %s", "| a |\n|---|\n| c[^n] %s |"]) % w(), "", "[^n]: %s" % w()]
             for _ in range(ctx.rng.randint(1, 4)):
                 if ctx.rng.random() < 0.3:
                     lines.append("")
